@@ -81,6 +81,10 @@ func EncryptX25519(pubKey *[32]byte, msg []byte) []byte {
 func DecryptX25519(privKey, pubKey *[32]byte, encrypted []byte) ([]byte, error) {
 	var epk [32]byte
 	var nonce [24]byte
+	// the message starts with the 32-byte ephemeral public key, followed by the sealed box
+	if len(encrypted) < 32+box.Overhead {
+		return nil, ErrX25519DecryptionFailed
+	}
 	copy(epk[:], encrypted[:32])
 
 	nonceWriter, _ := blake2b.New(24, nil)
